@@ -10,7 +10,7 @@ ids = sorted(d for d in os.listdir('/verif/seeded') if os.path.isfile('/verif/se
 if pref:
     ids = [i for i in ids if any(i.startswith(p) for p in pref)]
 matrix = {}
-mpath = '/verif/seeded/MATRIX.json'
+mpath = os.environ.get('MATRIX_OUT', '/verif/seeded/MATRIX.json')
 if os.path.exists(mpath):
     matrix = json.load(open(mpath))
 def sh(cmd, **kw):
@@ -18,6 +18,8 @@ def sh(cmd, **kw):
 head = sh('git -C /repo rev-parse --short HEAD').stdout.strip()
 for sid in ids:
     meta = json.load(open('/verif/seeded/%s/meta.json' % sid))
+    if sid in matrix and matrix[sid].get('repo_head') == head and os.environ.get('REDO') != '1':
+        continue
     wt = '/tmp/mut/re-' + sid
     sh('git -C /repo worktree remove --force ' + wt)
     sh('git -C /repo worktree add -q --detach %s HEAD' % wt)
@@ -26,7 +28,8 @@ for sid in ids:
     if r.returncode:
         row['error'] = 'patch does not apply: ' + r.stdout[-200:]
     else:
-        for p in meta['properties']:
+        props = [meta['properties'][0]] + [q for q in meta['properties'][1:] if (meta.get('checks') or {}).get(q, {}).get('exit') == 1]
+        for p in props:
             e = dict(os.environ); e['VERIF_REPO'] = wt
             t0 = time.time()
             c = subprocess.run(['/verif/check', p, 'quick'], env=e, stdout=subprocess.PIPE, stderr=subprocess.STDOUT, text=True)
